@@ -197,15 +197,21 @@ def step (s : St) (ws : List String) : St × String :=
           let cfg := s.slot.build.cfg
           (s, toString (nStarts (cfg.tx.foldSteps lo hi).length (cfg.episodeLen.getD 0)))
       | _, _ => (s, "bad-op")
-  | ["ereset", lo, hi, start] =>
-      match lo.toInt?, hi.toInt?, start.toNat? with
-      | some lo, some hi, some st =>
+  | "ereset" :: lo :: hi :: start :: rest =>
+      -- optional 4th argument: `reset(fold, episode_length=m)` overrides the configured length for this episode
+      let ovr : Option (Option Nat) := match rest with
+        | [] => some none
+        | [m] => m.toNat?.map some
+        | _ => none
+      match lo.toInt?, hi.toInt?, start.toNat?, ovr with
+      | some lo, some hi, some st, some ovr =>
           let (s', out) := withEnv s fun cfg st0 =>
-            if !resetAdmissible cfg lo hi st then (st0, "err rejected") else
-            let st1 := envReset cfg lo hi st st0.contractClock
+            let cfg' : EnvCfg Rat := match ovr with | some m => { cfg with episodeLen := some m } | none => cfg
+            if !resetAdmissible cfg' lo hi st then (st0, "err rejected") else
+            let st1 := envReset cfg' lo hi st st0.contractClock
             (st1, s!"ok {st1.done} {showOInt st1.now}")
           (s'.setSlot { s'.slot with logSeen := 0 }, out)
-      | _, _, _ => (s, "bad-op")
+      | _, _, _, _ => (s, "bad-op")
   | "step" :: vs =>
       match vs.mapM parseORat? with
       | some v => withEnv s fun cfg st0 => showStep (envStep pwFloat lgFloat cfg st0 (.vec v))
